@@ -16,6 +16,51 @@ THEOREMS = ["Pfl.Rx.thompson_lang",
             "Pfl.ENFA.member_iff"]
 
 
+_LOG = None
+
+
+def _install_recorders():
+    """record, without touching /repo, the order in which to_regex eliminates states"""
+    from pyformlang.finite_automaton import EpsilonNFA
+    if getattr(EpsilonNFA, "_verif_wrapped", False):
+        return
+    rm, simple = EpsilonNFA._remove_state, EpsilonNFA._get_regex_simple  # pylint: disable=protected-access
+
+    def rm_w(self, state):
+        if _LOG is not None:
+            _LOG.append(("rm", state))
+        return rm(self, state)
+
+    def simple_w(self):
+        if _LOG is not None:
+            _LOG.append(("simple", list(self._final_states)))  # pylint: disable=protected-access
+        return simple(self)
+    EpsilonNFA._remove_state = rm_w  # pylint: disable=protected-access
+    EpsilonNFA._get_regex_simple = simple_w  # pylint: disable=protected-access
+    EpsilonNFA._verif_wrapped = True
+
+
+def norm(t):
+    """normal form modulo associativity of cat and associativity/commutativity/idempotence of alt"""
+    import json
+    if t[0] == "cat":
+        parts = []
+        for x in (norm(t[1]), norm(t[2])):
+            parts += x[1] if x[0] == "cat" else [x]
+        return ["cat", parts]
+    if t[0] == "alt":
+        parts = []
+        for x in (norm(t[1]), norm(t[2])):
+            parts += x[1] if x[0] == "alt" else [x]
+        uniq = {json.dumps(x): x for x in parts}
+        if len(uniq) == 1:
+            return list(uniq.values())[0]
+        return ["alt", [uniq[k] for k in sorted(uniq)]]
+    if t[0] == "star":
+        return ["star", norm(t[1])]
+    return t
+
+
 def generate(rng, tier):
     while True:
         spec = F.gen_fa(rng, max_states=4, pool=rng.choice(["str", "str", "int"]))
@@ -36,7 +81,11 @@ def run_case(case, drv):
     if len(A["delta"]) > 9:
         res.tag("skipped_dense")
         return res
+    global _LOG  # pylint: disable=global-statement
+    _install_recorders()
+    _LOG = []
     got = outcome(fa.to_regex, limit=8.0)
+    log, _LOG = _LOG, None
     res.evals += 1
     if got[0] == "timeout":
         res.tag("timeout")
@@ -55,6 +104,22 @@ def run_case(case, drv):
         res.violation("to_regex", "regular expression does not denote the automaton's language",
                       detail={"word": eq["word"], "regex": str(regex)})
         return res
+    # structural tie with the tree-level model of the elimination (Pfl/Model/ToRegex.lean)
+    orders, cur, ok_log = [], [], True
+    for kind, val in log:
+        if kind == "rm":
+            cur.append(scodes.code(val.value) if val.value in scodes.values else None)
+        else:
+            if len(val) == 1:
+                orders.append([scodes.code(val[0].value), cur])
+            cur = []
+    if ok_log:
+        mt = drv.call("rx.toRegex", A=A, symNames=names, orders=orders)
+        res.corr += 1
+        if norm(mt) != norm(tree):
+            res.corr_break("to_regex", "tree differs from the elimination model (modulo associativity of cat, ACI of alt)",
+                           detail={"impl": tree, "model": mt, "regex": str(regex), "orders": orders})
+        res.tag("elim_states_%d" % min(3, max([len(o[1]) for o in orders] + [0])))
     # round trip through to_epsilon_nfa
     st, E = outcome(regex.to_epsilon_nfa)
     res.evals += 1
